@@ -11,6 +11,7 @@ CONSTANTS
   StaleClears = FALSE
   KickClears = FALSE
   AllowKick = TRUE
+  AllowQuit = TRUE
   Sequential = FALSE
   Export = FALSE
 VIEW View
